@@ -404,8 +404,8 @@ package astits
 //@   requires aligned(w)
 //@   modifies w.cache, w.cacheLen, sinkN(w.w), sinkData(w.w), sinkFails(w.w)
 //@   let n0 = old(wN(w))
-//@   ensures [W] n: written == 3
-//@   ensures [W] count: retErr == nil ==> wN(w) == n0 + 3 && aligned(w)
+//@   ensures [W] n: written == 3 && retErr == nil
+//@   ensures [W] count: wN(w) == n0 + 3 && aligned(w)
 //@   ensures [C18] surfaced: wF(w) != old(wF(w)) ==> retErr != nil
 //@   ensures [C11] b0: retErr == nil ==> wD(w)[n0] == u8(h.TransportErrorIndicator) << 7 | u8(h.PayloadUnitStartIndicator) << 6 | u8(h.TransportPriority) << 5 | u8(h.PID >> 8 & 0x1f)
 //@   ensures [C11] b1: retErr == nil ==> wD(w)[n0 + 1] == u8(h.PID & 0xff)
@@ -502,3 +502,22 @@ package astits
 //@   loop 0 invariant [C11,C04] kLen: wb(w, n0, 0) == u8(body)
 //@   loop 0 invariant [C11] kFlags: wb(w, n0, 1) == flagsByte
 //@   loop 0 decreases [W] af.StuffingLength - i
+
+// writePacket: sync byte, header, adaptation field, payload, 0xff padding up to targetPacketSize.
+//@ func writePacket
+//@   requires aligned(w) && p != nil && 0 <= wN(w) && wN(w) < 0x800000000000 && 0 < targetPacketSize && targetPacketSize < 0x10000
+//@   requires p.Header.HasAdaptationField ==> afOK(p.AdaptationField) && afBody(p.AdaptationField) <= 255
+//@   requires allocated(p.Payload) && 0 <= len(p.Payload) && len(p.Payload) < 0x10000
+//@   modifies writer(w)
+//@   let n0 = old(wN(w))
+//@   let afb = ite(p.Header.HasAdaptationField, afBytes(p.AdaptationField), 0)
+//@   let fits = 4 + afb + len(p.Payload) <= targetPacketSize
+//@   ensures [W] ok: fits ==> retErr == nil && written == targetPacketSize
+//@   ensures [W] size: fits && p.Header.HasPayload ==> wN(w) == n0 + targetPacketSize && aligned(w)
+//@   ensures [C04,C11] nopayload: fits && !p.Header.HasPayload && len(p.Payload) == 0 ==> wN(w) == n0 + targetPacketSize && aligned(w)
+//@   ensures [C04,C11] reject: !fits ==> retErr != nil && written == 0
+//@   ensures [C18] surfaced: wF(w) != old(wF(w)) ==> retErr != nil
+//@   loop 0 invariant [W] pad: aligned(w) && written <= targetPacketSize && wN(w) == atentry(wN(w)) + iter && written == atentry(written) + iter
+//@   loop 0 invariant [W] ePad: fits && atentry(written) == 4 + afb + ite(p.Header.HasPayload, len(p.Payload), 0) && atentry(wN(w)) == n0 + atentry(written)
+//@   loop 0 invariant [C18] nofail: wF(w) == old(wF(w))
+//@   loop 0 decreases [W] targetPacketSize - written
